@@ -24,22 +24,25 @@ type rvalue struct {
 	goExpr string   // Go expression constructing the value
 	pre    []string // statements to run before (declarations)
 	ghost  string   // for readers: name of the []byte holding the file content
+	pos    string   // for stream readers: Go expression of the current ghost position consumed(r)
+	pos0   string   // ... and of the position before the call
 }
 
 type replayCtx struct {
-	eng     *Engine
-	res     *UnitResult
-	o       *Obligation
-	u       *Unit
-	query   string
-	n       int
-	pkg     *types.Package
-	notes   []string
-	helpers []string
-	collect bool
-	want    []string
-	cache   map[string]string
-	bound   int64
+	streamPos []string // realistic-position constraints of stream reader parameters (0 <= consumed <= size)
+	eng       *Engine
+	res       *UnitResult
+	o         *Obligation
+	u         *Unit
+	query     string
+	n         int
+	pkg       *types.Package
+	notes     []string
+	helpers   []string
+	collect   bool
+	want      []string
+	cache     map[string]string
+	bound     int64
 }
 
 func (rc *replayCtx) getValues(terms []string) (map[string]string, error) {
@@ -180,6 +183,21 @@ func (rc *replayCtx) build(s string, t types.Type, depth int) (rvalue, error) {
 	if depth > 4 {
 		return rvalue{}, fmt.Errorf("value too deep")
 	}
+	switch types.TypeString(t, nil) {
+	case "*bufio.Reader", "*bytes.Reader", "*io.SectionReader":
+		// external reader types built from the ghost file content
+		vals, err := rc.getValues([]string{s})
+		if err != nil {
+			return rvalue{}, err
+		}
+		if vals[s] == "0" && !rc.collect {
+			return rvalue{goExpr: fmt.Sprintf("(%s)(nil)", types.TypeString(t, func(p *types.Package) string { return p.Name() }))}, nil
+		}
+		if rd, ok := rc.readerValue(s, t); ok {
+			return rd, nil
+		}
+		return rvalue{}, fmt.Errorf("reader %s: the model's ghost file / position cannot be built", t)
+	}
 	ts, ok := rc.typeStr(t)
 	if !ok {
 		// a few external types we know how to build
@@ -197,6 +215,9 @@ func (rc *replayCtx) build(s string, t types.Type, depth int) (rvalue, error) {
 			return rvalue{}, fmt.Errorf("cannot parse integer value %q", vals[s])
 		}
 		return rvalue{goExpr: fmt.Sprintf("%s(%s)", ts, intLit(v, t, c.bv))}, nil
+	}
+	if types.TypeString(t, nil) == "context.Context" {
+		return rvalue{goExpr: "context.Background()"}, nil
 	}
 	if isBoolType(t) {
 		vals, err := rc.getValues([]string{s})
@@ -356,7 +377,8 @@ func (rc *replayCtx) build(s string, t types.Type, depth int) (rvalue, error) {
 // readerValue builds an io.ReaderAt (bytes.Reader / io.SectionReader) from the ghost file content of the model.
 func (rc *replayCtx) readerValue(s string, t types.Type) (rvalue, bool) {
 	name := types.TypeString(t, nil)
-	if name != "io.ReaderAt" && name != "*io.SectionReader" && name != "io.Reader" {
+	stream := name == "*bufio.Reader" || name == "io.ByteReader" || name == "*bytes.Reader" || name == "io.Reader"
+	if name != "io.ReaderAt" && name != "*io.SectionReader" && !stream {
 		return rvalue{}, false
 	}
 	if !rc.u.c.declared["rd.size"] {
@@ -398,6 +420,33 @@ func (rc *replayCtx) readerValue(s string, t types.Type) (rvalue, bool) {
 	rc.n++
 	g := fmt.Sprintf("ghostfile%d", rc.n)
 	pre := []string{fmt.Sprintf("%s := []byte{%s}", g, strings.Join(bs, ", "))}
+	if stream && rc.u.c.heapNames["HG_consumed"] != "" {
+		// a stream reader positioned at consumed(r): the ghost content is absolute, the real reader starts at that position
+		ct := "(select HG_consumed@0 " + s + ")"
+		cv, err := rc.getValues([]string{ct})
+		if err != nil {
+			return rvalue{}, false
+		}
+		startS, _ := parseSMTInt(cv[ct])
+		start, _ := strconv.ParseInt(startS, 10, 64)
+		if start < 0 || start > sz {
+			if !rc.collect {
+				return rvalue{}, false // the model puts the stream position outside the file: not a real reader state
+			}
+			start = 0
+		}
+		under := fmt.Sprintf("under%d", rc.n)
+		pre = append(pre, fmt.Sprintf("%s := bytes.NewReader(%s[%d:])", under, g, start))
+		pos := fmt.Sprintf("(%d + len(%s) - %d - %s.Len())", start, g, start, under)
+		expr := under
+		if name == "*bufio.Reader" || name == "io.ByteReader" {
+			br := fmt.Sprintf("bufrd%d", rc.n)
+			pre = append(pre, fmt.Sprintf("%s := bufio.NewReader(%s)", br, under))
+			pos = fmt.Sprintf("(%d + len(%s) - %d - %s.Len() - %s.Buffered())", start, g, start, under, br)
+			expr = br
+		}
+		return rvalue{goExpr: expr, pre: pre, ghost: g, pos: pos, pos0: fmt.Sprint(start)}, true
+	}
 	expr := fmt.Sprintf("bytes.NewReader(%s)", g)
 	if name == "*io.SectionReader" {
 		expr = fmt.Sprintf("io.NewSectionReader(bytes.NewReader(%s), 0, int64(len(%s)))", g, g)
@@ -442,6 +491,10 @@ func replayObligation(eng *Engine, res *UnitResult, o *Obligation) (bool, string
 		pre = append(pre, fmt.Sprintf("_ = a_%s", v.Name()))
 		if rv.ghost != "" {
 			ghostOf[v.Name()] = rv.ghost
+			if rv.pos != "" {
+				ghostOf[v.Name()+"#pos"] = rv.pos
+				ghostOf[v.Name()+"#pos0"] = rv.pos0
+			}
 		}
 		return "a_" + v.Name(), nil
 	}
@@ -580,7 +633,7 @@ func replayObligation(eng *Engine, res *UnitResult, o *Obligation) (bool, string
 		}
 	}
 	var b strings.Builder
-	fmt.Fprintf(&b, "package %s\n\nimport (\n\t\"bytes\"\n\t\"fmt\"\n\t\"io\"\n\t\"strings\"\n\t\"testing\"\n)\n\nvar _ = strings.Repeat\nvar _ = bytes.NewReader\nvar _ = io.EOF\nvar _ = fmt.Sprint\n\n", u.pkg.Types.Name())
+	fmt.Fprintf(&b, "package %s\n\nimport (\n\t\"bufio\"\n\t\"bytes\"\n\t\"context\"\n\t\"fmt\"\n\t\"io\"\n\t\"strings\"\n\t\"testing\"\n)\n\nvar _ = strings.Repeat\nvar _ = bytes.NewReader\nvar _ = io.EOF\nvar _ = fmt.Sprint\nvar _ = bufio.NewReader\nvar _ = context.Background\n\n", u.pkg.Types.Name())
 	b.WriteString("func vite[T any](c bool, a, b T) T {\n\tif c {\n\t\treturn a\n\t}\n\treturn b\n}\n\n")
 	for _, h := range rc.helpersFor(postCheck) {
 		b.WriteString(h)
@@ -702,6 +755,9 @@ func (rc *replayCtx) preferSmall() {
 			v := u.sig.Params().At(i)
 			if sym, ok := u.paramSyms[v.Name()]; ok && u.c.sortOf(v.Type()) == "Int" {
 				syms = append(syms, "(rd.size "+sym+")")
+				if c.heapNames["HG_consumed"] != "" {
+					rc.streamPos = append(rc.streamPos, and("(<= 0 (select HG_consumed@0 "+sym+"))", "(<= (select HG_consumed@0 "+sym+") (rd.size "+sym+"))"))
+				}
 			}
 		}
 	}
@@ -716,6 +772,9 @@ func (rc *replayCtx) preferSmall() {
 		}
 		for _, s := range nested {
 			fmt.Fprintf(&extra, "(assert %s)\n", c.idxLe(s, c.idxConst(8)))
+		}
+		for _, s := range rc.streamPos {
+			fmt.Fprintf(&extra, "(assert %s)\n", s)
 		}
 		q := strings.Replace(rc.query, "(check-sat)\n", extra.String()+"(check-sat)\n", 1)
 		saved := rc.query
@@ -873,6 +932,20 @@ func (tr *specTranslator) translate(e ast.Expr) (string, error) {
 			}
 			i, err := tr.translate(x.Args[1])
 			return g + "[" + i + "]", err
+		case "consumed":
+			rid, ok := x.Args[0].(*ast.Ident)
+			if !ok {
+				return "", fmt.Errorf("consumed() on a non-parameter reader")
+			}
+			key := rid.Name + "#pos"
+			if tr.inOld {
+				key = rid.Name + "#pos0"
+			}
+			g, ok := tr.ghostOf[key]
+			if !ok {
+				return "", fmt.Errorf("no stream position for %s", rid.Name)
+			}
+			return g, nil
 		case "isErr":
 			a, err := tr.translate(x.Args[0])
 			if err != nil {
